@@ -90,7 +90,9 @@ def op_applicable(op, gn):
     if op == "AssertOk": return False      # only meaningful in the assertion-enabled build (see ASSERT_OPS)
     return True
 
+CUSTOM_GEN = {}     # op -> generator(g, group name) for operations whose arguments are not described by a signature string
 def gen_case(g, gn, op, mask=None, flt=False, force_valid=False):
+    if op in CUSTOM_GEN: return CUSTOM_GEN[op](g, gn)
     gd = group(gn)
     sig, nm = OPSIG[op]
     thr = SQRT_EPS_D  # the double thresholds are the default; float runs use the same strata
